@@ -27,7 +27,7 @@ def confirm(sid, crate, dest):
     rc, o = sh(f"cargo test -p {crate} --test {test} --offline 2>&1 | tail -15", wt); res["demo_without_change"] = "test result: ok" in o and "FAILED" not in o
     res["demo_without_tail"] = o[-300:]
     sh(f"git apply {out}/patch.diff", wt)
-    rc, o = sh(f"cargo test -p {crate} --test {test} --offline 2>&1 | tail -25", wt); res["demo_with_change_fails"] = "FAILED" in o or "panicked" in o
+    rc, o = sh(f"cargo test -p {crate} --test {test} --offline 2>&1 | tail -25", wt); res["demo_with_change_fails"] = any(k in o for k in ("FAILED", "panicked", "stack overflow", "SIGABRT", "error: test failed", "process didn't exit successfully"))
     res["demo_with_tail"] = o[-400:]
     os.remove(os.path.join(wt, dest))
     rc, o = sh("cargo test --workspace --no-fail-fast --offline 2>&1 | grep -E '^test result|^test .* FAILED|error(\\[|:)' ", wt)
